@@ -587,6 +587,11 @@ def a_r1_getattr(schema: Schema, rep: Report):
 
     # the mapping itself, its keys, or a list / tuple / sorted copy of them: the same names in the same order
     it_ = text(loops[0].iter) if loops else ""
+    if loops and isinstance(loops[0].iter, ast.Name):
+        # a local bound once to the names: `names = tuple(self.subaggregates)`
+        bs_ = [s_.value for s_ in own_statements(fn) if isinstance(s_, ast.Assign) and len(s_.targets) == 1 and isinstance(s_.targets[0], ast.Name) and s_.targets[0].id == loops[0].iter.id]
+        if len(bs_) == 1:
+            it_ = text(bs_[0])
     it_ = _re_a1.sub(r"^(list|tuple|iter)\((.*)\)$", r"\2", it_)
     it_ = _re_a1.sub(r"\.keys\(\)$", "", it_)
     ok = bool(loops) and it_ in ("self.subaggregates", "self.__class__.subaggregates", "type(self).subaggregates")
